@@ -304,7 +304,15 @@ func (m *c16Machine) apply(op c16Op) error {
 			delete(m.Infos, op.Denom)
 		}
 	case "assetinfo":
-		err, _ := execMsg(w, m.ctx, &oracletypes.MsgCreateAssetInfo{Creator: who.Addr.String(), Denom: op.Denom, Display: op.Asset, BandTicker: op.Asset, ElysTicker: op.Asset, Decimal: op.Dec})
+		// the three names are independent inputs: the display name decides which asset's prices the denom gets
+		band, elys := op.Asset, op.Asset
+		if op.Asset2 != "" {
+			band = op.Asset2
+		}
+		if op.Src2 != "" {
+			elys = op.Src2
+		}
+		err, _ := execMsg(w, m.ctx, &oracletypes.MsgCreateAssetInfo{Creator: who.Addr.String(), Denom: op.Denom, Display: op.Asset, BandTicker: band, ElysTicker: elys, Decimal: op.Dec})
 		_, exists := m.Infos[op.Denom]
 		if exists == (err == nil) {
 			return fmt.Errorf("CreateAssetInfo(%s): error=%v but exists=%v", op.Denom, err, exists)
@@ -482,6 +490,9 @@ func TestC16(t *testing.T) {
 				}
 			case 17:
 				op = c16Op{Kind: "assetinfo", Who: UniformDraw(rt, "who", 4), Denom: "u" + strings.ToLower(pick(rt, "asset", c16Assets)), Asset: pick(rt, "asset2", c16Assets), Dec: uint64(6 + UniformDraw(rt, "dec", 3)*6)}
+				if UniformDraw(rt, "tickers-differ", 2) == 1 {
+					op.Asset2, op.Src2 = pick(rt, "bandticker", c16Assets), pick(rt, "elysticker", c16Assets)
+				}
 			case 18:
 				denoms := []string{"uusdc", "uatom", "ubtc", "ueth", "uusd", "uelys", "unknown"}
 				op = c16Op{Kind: "denomlookup", Denom: denoms[UniformDraw(rt, "denom", len(denoms))]}
